@@ -12,6 +12,7 @@ typedef struct { int32_t f0; _Bool f1; } pair_i32;
 typedef struct { int64_t f0; _Bool f1; } pair_i64;
 typedef struct { _Bool some; int64_t f0; } opt_i64;
 typedef struct { double f0; } rs_number;
+typedef struct { _Bool some; rs_number f0; } opt_number;
 
 #ifdef __CPROVER__
 #define rs_assert(c) __CPROVER_assert((c), "MIR assert failed (Rust panic)")
